@@ -371,6 +371,20 @@ pub fn adversarial(r: &mut Rng) -> Vec<Vec<OpCode>> {
         v.push(vec![PushI(U256::ZERO), Jmp(2), Loop(it, 4), Noop, Loop(inner, 2), one(), Add]);
     }
     v.push(vec![Jmp(1), Loop(0, 2), Loop(0, 1), Loop(200, 1), Noop]);
+    // jumps taken inside a loop body: landing one past the body ("continue"), leaving the loop onto another loop header,
+    // staying inside the body - each with a counter, so that the number of iterations shows in the result
+    v.push(vec![PushI(U256::ZERO), Loop(3, 4), one(), Add, Jmp(1), Noop, PushI(U256::from(100u32)), Add]);
+    v.push(vec![PushI(U256::ZERO), Loop(5, 5), one(), Add, Dup, Bnz(1), Noop, Noop]);
+    v.push(vec![PushI(U256::ZERO), Loop(5, 5), one(), Add, PushI(U256::ZERO), Bez(1), Noop, Noop]);
+    v.push(vec![PushI(U256::ZERO), Loop(2, 2), Jmp(2), Noop, Noop, Loop(4, 2), one(), Add]);
+    v.push(vec![PushI(U256::ZERO), Loop(3, 4), Jmp(1), Noop, one(), Add]);
+    v.push(vec![PushI(U256::ZERO), Loop(3, 3), one(), Add, Jmp(0), one(), Add]);
+    // an Ed25519 check whose signature operand is a long rope: nothing proportional to its length may be allocated
+    {
+        let mut p = vec![PushB(vec![7u8; 64]), Loop(13, 2), Dup, BAppend, PushB(vec![1u8; 32]), PushB(vec![2u8; 8]), SigEOk(8)];
+        v.push(p.clone());
+        p[1] = Loop(3, 2); v.push(p);
+    }
     // a loop header that is the last instruction of the (skipped) body of another header: its own body overruns
     // the enclosing one, and it is reached by a jump, so it runs in full
     for (n, k) in [(300u16, 2u16), (1000, 2), (7, 2)] {
